@@ -54,3 +54,33 @@ def fingerprint(fn):
             sw = (i.d.get("default"), tuple(map(tuple, i.d.get("cases", [])))) if i.op == "switch" else None
             put((i.id, i.op, i.ty, i.pred, callee, tuple(opnd(o) for o in i.ops), steps, inc, sw, tuple(i.succs or ())))
     return h.hexdigest()[:24]
+
+
+def features(fn):
+    """what a function is *about*, as a set that survives renaming and moderate restructuring: the external functions it calls, the struct
+    members it touches, its string literals, its larger constants, its signature shape and the file it lives in.  Used only to find where
+    a vanished, rule-named function has most likely gone (build._find_renames); never as evidence for a property."""
+    mod = fn.mod
+    out = set()
+    out.add(("file", (fn.file or "").split("/")[-1]))
+    out.add(("sig", fn.ret, len(fn.params)))
+    for i in fn.insts():
+        if i.op == "call" and i.callee and not i.callee.startswith("llvm."):
+            f2 = mod.functions.get(i.callee)
+            if f2 is None or f2.decl:
+                out.add(("ext", i.callee))
+        if i.op == "getelementptr":
+            for st in i.steps:
+                if st["k"] == "field":
+                    try:
+                        out.add(("fld", mod.struct_cname(st["struct"]), st["field"]))
+                    except Exception:
+                        pass
+        for o in list(i.ops) + ([v for v, _ in i.incoming] if i.op == "phi" else []):
+            if o[0] == "ci" and isinstance(o[1], int) and (o[1] >= 16 or o[1] < -1):
+                out.add(("k", o[1]))
+            if o[0] in ("gv", "ce"):
+                s = mod.const_string(o)
+                if s is not None:
+                    out.add(("str", bytes(s[:24])))
+    return out
